@@ -1002,6 +1002,10 @@ impl ConnectBuilder {
         }
 
         if let Some(ref will_props) = self.will_props {
+            // Will properties are only serialized together with a will message
+            if !will_flag && !will_props.is_empty() {
+                return Err(MqttError::ProtocolError);
+            }
             validate_will_properties(will_props)?;
         }
 
